@@ -202,6 +202,8 @@ class Engine:
             return val.t
         if kind == "match" and isinstance(val, SNone):
             return z3.IntVal(-1)
+        if kind.startswith("iter:") and isinstance(val, SNone):
+            return z3.IntVal(0)
         if kind.startswith("optref:"):
             if isinstance(val, SNone):
                 return z3.IntVal(0)
@@ -1347,7 +1349,8 @@ class Engine:
 
 from .loops import LoopMixin  # noqa: E402
 from .contracts_rt import ContractMixin  # noqa: E402
+from .marks import MarkMixin  # noqa: E402
 
 
-class FullEngine(Engine, LoopMixin, ContractMixin):
+class FullEngine(Engine, LoopMixin, ContractMixin, MarkMixin):
     pass
